@@ -133,6 +133,22 @@ fn evaluate_inner(plan: &Plan, out: &RunOut, obs: &mut Vec<Violation>) -> Vec<Vi
             }
         }
     }
+    if plan.family == "clean" && out.stats.fired.values().sum::<u64>() == 0 {
+        // no fault of any kind was injected (the link only has its latency and jitter): an accept
+        // beyond the streams the clients opened hands the server application a stream nobody
+        // opened, made from a spurious retransmission of a first-flight packet (the sender's first
+        // PTO is far below the round trip) that arrives after the real stream was released
+        for g in &out.app.ghosts {
+            if g.starts_with("error_before_header") || g.starts_with("eof_before_header") {
+                vs.push(v(
+                    p,
+                    &format!("{pre}.ghost_accept_without_fault"),
+                    format!("no fault injected, one-way delay {} us: the server application was handed a stream no client opened ({} accepts for {} streams): {g}", plan.cfg.base_delay_us, out.app.accepted, plan.n_streams()),
+                    "retransmitted_first_flight_accepted_as_new_stream",
+                ));
+            }
+        }
+    }
     let all_headers_written = plan.clients.iter().enumerate().all(|(ci, c)| {
         (0..c.streams.len()).all(|si| {
             out.app.actors.get(&(ci as u8, si as u8, ROLE_CW)).map_or(false, |a| a.done && !(is_err(a) && a.last_op == "write_header") && a.end != "no_stream")
